@@ -190,71 +190,3 @@ Proof.
       rewrite E2, ok09_sp_action, E1, outcome_eqb_refl. apply andb_true_r.
 Qed.
 
-(* the kill mark of the running coroutine itself after its actions *)
-Lemma do_action_gens_mem s a s' o g :
-  do_action s a = (s', o) -> amem g (gens s) = true -> amem g (gens s') = true.
-Proof.
-  intros Hd Hg. destruct a as [h|h|h]; cbn [do_action] in Hd.
-  - unfold do_start in Hd. destruct (h <? 0); [now injection Hd as <-|].
-    destruct (negb (mstate s h =? 0)); [now injection Hd as <-|].
-    destruct (memz h (killq s)).
-    + destruct (alookup h (gens s)) as [[?|]|]; injection Hd as <-; sproj; auto;
-        rewrite amem_aset, Hg; apply orb_true_r.
-    + injection Hd as <-. sproj. rewrite amem_aset, Hg. apply orb_true_r.
-  - unfold do_kill in Hd. destruct (h <? 0); [now injection Hd as <-|].
-    destruct (alookup h (gens s)); [|now injection Hd as <-].
-    destruct (memz h (killq s)); now injection Hd as <-.
-  - now injection Hd as <-.
-Qed.
-
-Lemma self_killed_step s a s' o g :
-  do_action s a = (s', o) -> amem g (gens s) = true -> 0 <= g ->
-  memz g (killq s') =
-  match a with
-  | AKill g' => if g' =? g then true else memz g (killq s)
-  | AStart g' => if g' =? g then false else memz g (killq s)
-  | AState _ => memz g (killq s)
-  end.
-Proof.
-  intros Hd Hg Hpos. destruct a as [h|h|h]; cbn [do_action] in Hd.
-  - unfold do_start in Hd. destruct (h =? g) eqn:E.
-    + apply Z.eqb_eq in E. subst h. unfold amem in Hg.
-      destruct (g <? 0) eqn:En; [lia|]. unfold mstate in Hd.
-      destruct (alookup g (gens s)) as [w|] eqn:Eg; [|discriminate].
-      destruct (memz g (killq s)) eqn:Ek.
-      * cbn in Hd. destruct w; injection Hd as <- _; sproj; rewrite memz_remz, Z.eqb_refl; auto.
-      * destruct w; cbn in Hd; injection Hd as <- _; auto.
-    + destruct (h <? 0); [now injection Hd as <-|].
-      destruct (negb (mstate s h =? 0)); [now injection Hd as <-|].
-      destruct (memz h (killq s)).
-      * destruct (alookup h (gens s)) as [[?|]|]; injection Hd as <- _; sproj;
-          rewrite memz_remz, (Z.eqb_sym g h), E; auto.
-      * now injection Hd as <-.
-  - unfold do_kill in Hd. destruct (h =? g) eqn:E.
-    + apply Z.eqb_eq in E. subst h. unfold amem in Hg.
-      destruct (g <? 0) eqn:En; [lia|].
-      destruct (alookup g (gens s)) as [w|] eqn:Eg; [|discriminate].
-      destruct (memz g (killq s)) eqn:Ek.
-      * now injection Hd as <-.
-      * injection Hd as <- _. sproj. rewrite memz_cons, Z.eqb_refl. auto.
-    + destruct (h <? 0); [now injection Hd as <-|].
-      destruct (alookup h (gens s)); [|now injection Hd as <-].
-      destruct (memz h (killq s)); [now injection Hd as <-|].
-      injection Hd as <- _. sproj. rewrite memz_cons, (Z.eqb_sym g h), E. auto.
-  - now injection Hd as <-.
-Qed.
-
-Lemma self_killed_run acts : forall s outs s' g,
-  run_actions s acts outs = Some s' -> amem g (gens s) = true -> 0 <= g ->
-  memz g (killq s') = self_killed g acts (memz g (killq s)) /\ amem g (gens s') = true.
-Proof.
-  induction acts as [|a acts IH]; intros s outs s' g Hr Hg Hpos.
-  - destruct outs; [|discriminate]. injection Hr as <-. auto.
-  - destruct outs as [|o outs]; [discriminate|]. cbn [run_actions] in Hr.
-    destruct (do_action s a) as [s1 o1] eqn:Ed.
-    destruct (outcome_eqb o o1); [|discriminate].
-    pose proof (do_action_gens_mem _ _ _ _ g Ed Hg) as Hg1.
-    destruct (IH _ _ _ g Hr Hg1 Hpos) as [E1 E2]. split; auto.
-    rewrite E1, (self_killed_step _ _ _ _ g Ed Hg Hpos).
-    destruct a; cbn [self_killed]; auto.
-Qed.
